@@ -626,3 +626,12 @@ func MethodBehind(fn *ssa.Function) (*ssa.Function, int) {
 	}
 	return target, 1
 }
+
+// ConstString returns the value of a string constant.
+func ConstString(v ssa.Value) (string, bool) {
+	c, ok := Unwrap(v).(*ssa.Const)
+	if !ok || c.Value == nil || c.Value.Kind() != constant.String {
+		return "", false
+	}
+	return constant.StringVal(c.Value), true
+}
